@@ -191,13 +191,13 @@ def cond_bound(nw, nops):
 # ---------------------------------------------------------------------------
 # Event scenarios
 
-def event_system(roles):
-    """roles: list of 'wait' | 'set' | 'clear' | 'is_set'"""
+def event_system(roles, flag0=0):
+    """roles: list of 'wait' | 'set' | 'clear' | 'is_set'; flag0: the event is already set when the threads start"""
     cm, em, cenv, eenv, methods = load()
     threads = []
     syms = {}
-    ghosts = {'setdone': 0}
-    info = {'roles': roles, 'xpcs': {}}
+    ghosts = {'setdone': flag0}
+    info = {'roles': roles, 'xpcs': {}, 'flag0': flag0}
     for i, role in enumerate(roles):
         a = Asm()
         if role == 'wait':
@@ -217,7 +217,7 @@ def event_system(roles):
                     prog[k] = tuple(ins) + ({'sawset%d' % i: (lambda view: view['gh']['setdone'])},)
         info['xpcs'][i] = [k for k, ins in enumerate(prog) if ins[0] == 'sem_acq' and ins[1] == 'X']
         threads.append(prog)
-    sysm = System(threads, sems={'S': 0, 'W': 0, 'X': 0, 'F': 0}, locks={'L': 0}, ghosts=ghosts, syms=syms)
+    sysm = System(threads, sems={'S': 0, 'W': 0, 'X': 0, 'F': flag0}, locks={'L': 0}, ghosts=ghosts, syms=syms)
     cons = [z3.ULE(v, BVV(1)) for v in sysm.syms.values()]
     return sysm, cons, info
 
@@ -276,6 +276,10 @@ def event_properties(sysm, info):
                 bads.append(z3.Not(sysm.ended(fin, i)))
         if has_set and not has_clear:
             bads.append(fin['sem']['F'] != BVV(1))
+        if has_clear and not has_set:
+            # clear() is atomic with respect to the take-and-put-back of is_set()/wait(): once every thread has ended the
+            # event is clear, whatever it was at the start
+            bads.append(fin['sem']['F'] != BVV(0))
         return z3.Or(*bads)
 
     return {'E1-flag-is-0-or-1': E1, 'E5-no-assertion-of-the-real-code-fails': E5, 'E6-wait-result-matches-flag': E6, 'E7-no-deadlock-flag-final': E7}
@@ -476,6 +480,7 @@ def replay(spec):
         ev = bs.Event.__new__(bs.Event)
         ev._cond = cond
         ev._flag = GSem(gate, 'F')
+        ev._flag.value = spec.get('flag0', 0)
         for i, role in enumerate(spec['roles']):
             if role == 'wait':
                 bodies.append(lambda i=i: ev.wait(1000.0 if syms['timed%d' % i] else None))
@@ -521,6 +526,8 @@ def replay(spec):
                 raise Diverged('thread %d returned %r natively, %r in the model' % (i, results[i], fin['ret'][i]))
     if spec.get('err_expected') and not errors:
         raise Diverged('the model predicts a failing assertion of the real code; none failed natively')
+    if spec['kind'] == 'event' and all(ended) and ev._flag.value != fin['sem']['F']:
+        raise Diverged('final flag %r natively, %r in the model' % (ev._flag.value, fin['sem']['F']))
     hbase.REPLAY['tag'] = 'C17:' + spec['property']
     return False
 
@@ -579,8 +586,8 @@ def ob_cond_3w_1op(tier):
     return _cond(3, 1, 1500)
 
 
-def _event(roles, timeout_s):
-    sysm, cons, info = event_system(roles)
+def _event(roles, timeout_s, flag0=0):
+    sysm, cons, info = event_system(roles, flag0)
     props = event_properties(sysm, info)
     K = event_bound(roles)
 
@@ -589,7 +596,8 @@ def _event(roles, timeout_s):
         alts = [z3.And(sysm.ended(fin, i), fin['loc'][i]['$ret'] == BVV(1)) for i, r in enumerate(roles) if r in ('wait', 'is_set')]
         return z3.Or(*alts)
     vt = [r in ('wait', 'is_set') for r in roles]
-    return _run_scenario('event', sysm, cons, info, props, K, {'kind': 'event', 'roles': roles, 'value_threads': vt}, witness, timeout_s)
+    return _run_scenario('event', sysm, cons, info, props, K, {'kind': 'event', 'roles': roles, 'value_threads': vt, 'flag0': flag0},
+                         witness, timeout_s)
 
 
 def ob_event_wws(tier):
@@ -602,6 +610,15 @@ def ob_event_wsc(tier):
 
 def ob_event_isw(tier):
     return _event(['is_set', 'set', 'wait'], 600)
+
+
+def ob_event_set_ic(tier):
+    """the event is set at the start: is_set() and clear() race (clear must not be lost inside is_set's take-and-put-back)"""
+    return _event(['is_set', 'clear'], 600, flag0=1)
+
+
+def ob_event_set_wic(tier):
+    return _event(['wait', 'is_set', 'clear'], 900, flag0=1)
 
 
 def v_semaphore_model(tier):
@@ -676,6 +693,82 @@ def h_wrappers(v: int, kind: int) -> bool:
     finally:
         bs.SemLock.__init__ = saved
     return seen == [exp] or fail('C17:wrapper-passes-wrong-kind-value-or-bound')
+
+
+def _semlocks(obj):
+    import billiard.synchronize as bs
+    if isinstance(obj, bs.SemLock):
+        return [obj]
+    if isinstance(obj, bs.Condition):
+        return [obj._lock, obj._sleeping_count, obj._woken_count, obj._wait_semaphore]
+    if isinstance(obj, bs.Event):
+        return _semlocks(obj._cond) + [obj._flag]
+    raise TypeError(obj)
+
+
+def _fork(kind, depth, want):
+    """Across processes: a child forked while the parent holds a primitive starts with its own, empty ownership record (what
+    SemLock registers with util.register_after_fork), otherwise the child's copy of an RLock / of a Condition's lock counts the
+    parent's acquisitions as its own and admits a second holder.  The real SemLock.__init__ and the real C semaphore run; the
+    child's start is played in-process by running the after-fork hooks registered for the new objects, as _bootstrap does."""
+    import billiard
+    import billiard.util as bu
+    from harness.hbase import fail
+    ctx = billiard.get_context('fork')
+    before = set(bu._afterfork_registry.keys())
+    if kind == 0:
+        obj = ctx.Lock()
+    elif kind == 1:
+        obj = ctx.RLock()
+    elif kind == 2:
+        obj = ctx.Semaphore(3)
+    elif kind == 3:
+        obj = ctx.BoundedSemaphore(3)
+    elif kind == 4:
+        obj = ctx.Condition()
+    else:
+        obj = ctx.Event()
+    sls = _semlocks(obj)
+    holder = sls[0]
+    n = depth if kind in (1, 2, 3, 4) else min(depth, 1)      # a plain Lock is taken once; an Event's lock is not held across calls
+    if kind == 5:
+        n = 0
+    for _ in range(n):
+        holder.acquire()
+    if n and holder._semlock._count() != n:
+        return fail('C17:fork:harness-count')
+    # the child: run the hooks registered since `before`, in registration order (util._run_after_forkers)
+    items = sorted((k, v) for k, v in list(bu._afterfork_registry.items()) if k not in before)
+    for (index, ident, func), o in items:
+        func(o)
+    for sl in sls:
+        if sl._semlock._count() != 0 or sl._semlock._is_mine():
+            return fail('C17:fork:child-inherits-the-parent-ownership-record')
+    if want and n:
+        return False
+    return True
+
+
+def h_fork(kind: int, depth: int) -> bool:
+    """
+    pre: 0 <= kind <= 5 and 0 <= depth <= 2
+    post: _
+    """
+    from harness.hbase import pick, untraced
+    kind, depth = pick(kind, 0, 5), pick(depth, 0, 2)
+    with untraced():          # nothing symbolic is left: the constructors (random names, C calls) run outside the tracer
+        return _fork(kind, depth, False)
+
+
+def h_fork_twin(kind: int, depth: int) -> bool:
+    """
+    pre: 0 <= kind <= 5 and 0 <= depth <= 2
+    post: _
+    """
+    from harness.hbase import pick, untraced
+    kind, depth = pick(kind, 0, 5), pick(depth, 0, 2)
+    with untraced():
+        return _fork(kind, depth, True)
 
 
 def v_conformance(tier):
